@@ -35,10 +35,27 @@ def Q(kind, v, u):
 
 def mkq(q):
     v = q[1]
+    h = zlib.crc32(repr(q).encode())
     # one integral value in three is handed over as a Python int (deterministically, so that a replay builds the same objects)
-    if isinstance(v, float) and v != 0 and v.is_integer() and abs(v) < 2 ** 31 and zlib.crc32(repr(q).encode()) % 3 == 0:
+    if isinstance(v, float) and v != 0 and v.is_integer() and abs(v) < 2 ** 31 and h % 3 == 0:
         v = int(v)
-    return getattr(U, q[0])(v, q[2])
+    cls = getattr(U, q[0])
+    if h % 5 == 1 and isinstance(v, float) and v == v and abs(v) != float('inf'):
+        # one object in five was declared in another unit and re-expressed IN PLACE before use (only when that reproduces the value
+        # bit for bit, so that the model sees the very same quantity)
+        us = S.units(q[0])
+        for j in range(len(us)):
+            u0 = us[(h // 5 + j) % len(us)]
+            if u0 == q[2]:
+                continue
+            try:
+                o = cls(v * S.ffactor(q[0], q[2]) / S.ffactor(q[0], u0), u0)
+                o.to(q[2], inplace=True)
+            except Exception:  # noqa
+                continue
+            if o.unit == q[2] and o.value == v and (v != 0 or math.copysign(1, o.value) == math.copysign(1, v)):
+                return o
+    return cls(v, q[2])
 
 
 def in_unit(rng, kind, si_value, unit=None):
@@ -437,11 +454,24 @@ def history(pt, els, n=None):
     return rows
 
 
+def allowed_instants(sc):
+    """an upper bound of the instants a powertrain can hold at any moment of the scenario: the sum over its runs of round(T/dt) + 1"""
+    from fractions import Fraction as F
+    tot = 0
+    for op in sc['ops']:
+        if op[0] == 'run':
+            dt = F(op[1][1]) * S.factor('Time', op[1][2])
+            T = F(op[2][1]) * S.factor('Time', op[2][2])
+            tot += (round(T / dt) if dt > 0 else 0) + 2
+    return tot
+
+
 def run_impl(sc, timeout=20, keep_objects=False):
     """returns dict(static=..., rows=[...], locked=bool, err=None|class, marks=[len(time) after each op], oracle=[...])"""
     signal.signal(signal.SIGALRM, _alarm)
     signal.alarm(timeout)
     res = dict(err=None, rows=None, locked=None, marks=[], oracle=[], flags=[], pre=[], part=[])
+    pt = None
     try:
         try:
             pt, els = build(sc)
@@ -525,6 +555,12 @@ def run_impl(sc, timeout=20, keep_objects=False):
             res['objects'] = (pt, els, solver)
     except Timeout:
         res['err'] = 'Other:Timeout'
+        # not an outcome of the code -- except that a run which has already recorded more instants than all its grids allow is a fact
+        try:
+            res['timeout_instants'] = len(pt.time) if pt is not None else 0
+            res['allowed_instants'] = allowed_instants(sc)
+        except Exception:  # noqa
+            pass
     finally:
         signal.alarm(0)
     return res
